@@ -153,6 +153,9 @@ func Catalogue() []Prog {
 	add("err-required", F, `<template include="@D/c.vuego"></template>`, map[string]string{"c.vuego": `<template :required="must"><b>{{ must }}</b></template>`}, nil, true)
 	add("err-include-bad-frontmatter", F, `<template include="@D/c.vuego"></template>`, map[string]string{"c.vuego": "---\n: : bad: [yaml\n---\n<p>x</p>"}, nil, true)
 	add("err-missing-layout", F, "---\nlayout: gone\n---\n<p>x</p>", nil, nil, true)
+	add("err-mid-text", S, `<p>Account {{ title }} balance {{ bad | failif }} tail</p>`, nil, map[string]TV{"bad": tvS("boom")}, true)
+	add("err-mid-attr", S, `<p title="A {{ title }} B {{ bad | failif }} C">x</p>`, nil, map[string]TV{"bad": tvS("boom")}, true)
+	add("err-in-component-mid-text", F, `<template include="@D/c.vuego"></template>`, map[string]string{"c.vuego": `<p>Owner {{ user.name }} then {{ nope | nosuchfilter }}</p>`}, nil, true)
 	add("err-late-in-loop", S, `<ul><li v-for="lk_it in items">{{ lk_it.name | failif }}</li><li>{{ bad | failif }}</li></ul>`, nil, map[string]TV{"bad": tvS("boom")}, true)
 	return out
 }
